@@ -15,6 +15,7 @@ for f in ("patch.diff", "demo_test.go", "meta.json"):
     if os.path.exists(f"{src}/{f}") and os.path.abspath(src) != os.path.abspath(dst):
         shutil.copy(f"{src}/{f}", f"{dst}/{f}")
 demo = open(f"{dst}/demo_test.go").read()
+RACE = "-race" if "race" in open(f"{dst}/meta.json").read().lower() and prop == "C09" else ""
 m = re.search(r"package dir:\s*(\S+)", demo)
 pkgdir = m.group(1).strip("./") if m else ""
 wt = f"/tmp/sv_{name}"
@@ -23,13 +24,13 @@ rc, out = sh(f"git -C /repo worktree add --detach {wt} HEAD")
 res = {"property": prop, "name": name, "pkgdir": pkgdir}
 try:
     shutil.copy(f"{dst}/demo_test.go", f"{wt}/{pkgdir}/zzdemo_test.go")
-    rc0, out0 = sh(f"go test -vet=off -count=1 -run 'ZZ|zz|Demo|demo' ./{pkgdir}/", cwd=wt)
+    rc0, out0 = sh(f"go test {RACE} -vet=off -count=1 -run 'ZZ|zz|Demo|demo' ./{pkgdir}/", cwd=wt)
     res["demo_passes_without_patch"] = rc0 == 0
     rc, out = sh(f"git apply {dst}/patch.diff", cwd=wt)
     res["patch_applies"] = rc == 0
     rcb, outb = sh("go build ./...", cwd=wt)
     res["builds"] = rcb == 0
-    rc1, out1 = sh(f"go test -vet=off -count=1 -run 'ZZ|zz|Demo|demo' ./{pkgdir}/", cwd=wt)
+    rc1, out1 = sh(f"go test {RACE} -vet=off -count=1 -run 'ZZ|zz|Demo|demo' ./{pkgdir}/", cwd=wt)
     res["demo_fails_with_patch"] = rc1 != 0
     os.remove(f"{wt}/{pkgdir}/zzdemo_test.go")
     ok_suite = False
